@@ -28,6 +28,7 @@ type base struct {
 	segwit bool
 	nin    int
 	pos8   []int // substitution positions
+	cuts   []int // truncation points (nil = every prefix)
 }
 
 var hugeCounts = []uint64{1 << 16, 1 << 30, 1 << 32, 1 << 40, 1<<62 + 1, 1 << 63, 1<<64 - 1}
@@ -105,10 +106,43 @@ type baseSpec struct {
 	name  string
 	t     *reftx.Tx
 	force bool
+	big   bool // many tiny elements: mutations only around the ends and the count fields
 }
 
 func (s *baseSpec) build(thorough bool) *base {
 	b := mkBase(s.name, s.t, s.force)
+	if s.big {
+		// the point of these bases is the width of a COUNT field; byte-level mutations are
+		// applied to the first and last 48 bytes, field-level ones to the count fields and
+		// the first / last two element-length fields
+		n := len(b.enc)
+		for p := 0; p < n; p++ {
+			if p < 48 || p >= n-48 {
+				b.pos8 = append(b.pos8, p)
+				b.cuts = append(b.cuts, p)
+			}
+		}
+		var cs []reftx.Span
+		lens := 0
+		for _, c := range b.cs {
+			if c.Kind != "cs:nin" && c.Kind != "cs:nout" && c.Kind != "cs:nwit" {
+				lens++
+			}
+		}
+		k := 0
+		for _, c := range b.cs {
+			if c.Kind == "cs:nin" || c.Kind == "cs:nout" || c.Kind == "cs:nwit" {
+				cs = append(cs, c)
+				continue
+			}
+			if k < 2 || k >= lens-2 {
+				cs = append(cs, c)
+			}
+			k++
+		}
+		b.cs = cs
+		return &b
+	}
 	if len(b.enc) <= 600 || thorough {
 		b.pos8 = allPos(len(b.enc))
 	} else {
@@ -117,7 +151,15 @@ func (s *baseSpec) build(thorough bool) *base {
 	return &b
 }
 
-func mkBase2(name string, t *reftx.Tx, force bool) baseSpec { return baseSpec{name, t, force} }
+func mkBase2(name string, t *reftx.Tx, force bool) baseSpec { return baseSpec{name, t, force, false} }
+
+// cutAt: the prefix length of truncation case i.
+func cutAt(b *base, i int) int {
+	if b.cuts != nil {
+		return b.cuts[i]
+	}
+	return i
+}
 
 func buildBases(thorough bool) []baseSpec {
 	var l []baseSpec
@@ -247,6 +289,63 @@ func buildBases(thorough bool) []baseSpec {
 			}
 		}
 	}
+	// D. every COUNT field at the CompactSize width boundaries, with the smallest elements:
+	// number of inputs, of outputs, of witness items of an input
+	bounds := []int{252, 253, 254}
+	if thorough {
+		bounds = append(bounds, 65535, 65536)
+	}
+	for _, n := range bounds {
+		n := n
+		big := func(name string, t *reftx.Tx) { add(baseSpec{name, t, t.HasWitness(), true}) }
+		{
+			t := &reftx.Tx{Version: 2, LockTime: 0x65}
+			for i := 0; i < n; i++ {
+				t.In = append(t.In, mkIn(i, 0, false))
+			}
+			t.Out = append(t.Out, mkOut(0, 1))
+			big(fmt.Sprintf("count/%d-inputs", n), t)
+		}
+		{
+			t := &reftx.Tx{Version: 2, LockTime: 0x65}
+			t.In = append(t.In, mkIn(0, 1, false))
+			for i := 0; i < n; i++ {
+				t.Out = append(t.Out, mkOut(i, 0))
+			}
+			big(fmt.Sprintf("count/%d-outputs", n), t)
+		}
+		for _, il := range []int{0, 1} {
+			items := make([][]byte, n)
+			for i := range items {
+				items[i] = fill(il, byte(i))
+			}
+			t := mkw(items)
+			big(fmt.Sprintf("count/%d-witness-items-of-%d-bytes", n, il), t)
+			t2 := mkw([][]byte{{0x30}}, items)
+			big(fmt.Sprintf("count/2in-second-with-%d-witness-items-of-%d-bytes", n, il), t2)
+		}
+		{ // every count wide at once
+			t := &reftx.Tx{Version: 2, LockTime: 0x65}
+			items := make([][]byte, n)
+			for i := range items {
+				items[i] = []byte{}
+			}
+			if n <= 254 {
+				for i := 0; i < n; i++ {
+					in := mkIn(i, 0, false)
+					in.Witness = [][]byte{}
+					if i == 0 || i == n-1 {
+						in.Witness = items
+					}
+					t.In = append(t.In, in)
+				}
+				for i := 0; i < n; i++ {
+					t.Out = append(t.Out, mkOut(i, 0))
+				}
+				big(fmt.Sprintf("count/%d-inputs-outputs-witness-items", n), t)
+			}
+		}
+	}
 	return l
 }
 
@@ -259,6 +358,9 @@ func txFamCount(b *base, fam string, alpha []byte) int {
 	case "id":
 		return 1
 	case "trunc":
+		if b.cuts != nil {
+			return len(b.cuts)
+		}
 		return len(b.enc)
 	case "subst":
 		return len(b.pos8) * len(alpha)
@@ -299,7 +401,7 @@ func txGen(b *base, fam string, alpha []byte, i int) []byte {
 	case "id":
 		return append([]byte{}, b.enc...)
 	case "trunc":
-		return append([]byte{}, b.enc[:i]...)
+		return append([]byte{}, b.enc[:cutAt(b, i)]...)
 	case "subst":
 		p, v := b.pos8[i/len(alpha)], alpha[i%len(alpha)]
 		if b.enc[p] == v {
@@ -377,7 +479,11 @@ func txGen(b *base, fam string, alpha []byte, i int) []byte {
 // valid encoding for a truncation, the next transaction's first bytes otherwise.
 func txTail(b *base, fam string, i int) []byte {
 	if fam == "trunc" {
-		return b.enc[i:]
+		t := b.enc[cutAt(b, i):]
+		if len(t) > 4096 {
+			t = t[:4096]
+		}
+		return t
 	}
 	if len(b.enc) > 64 {
 		return b.enc[:64]
